@@ -161,6 +161,23 @@ func (c *Ctx) routeOfFrame(s *thresholdShape, mu *ssa.MapUpdate) (route string, 
 					return "", K, vs, "layout.Keys lookup is not checked with comma-ok", &fr
 				}
 				id := resolve(lk.Index, lk)
+				if fr.val(lk.Index, lk) == k {
+					// the key is looked up under the signer's own key id: that id must be known to be a member of the
+					// current step's PubKeys (slices.Contains(step.PubKeys, id) true where the link is counted)
+					member := false
+					for _, mc := range allCalls(fr.f) {
+						if genericBase(calleeName(mc)) != "slices.Contains" || len(mc.Common().Args) != 2 || mc.Value() == nil {
+							continue
+						}
+						if fr.org(mc.Common().Args[0]) == "p0.Steps[*].PubKeys" && fr.val(mc.Common().Args[1], mc) == k && fr.factAt(mc.Value(), true) {
+							member = true
+						}
+					}
+					if !member {
+						return "", K, vs, "the link is verified with layout.Keys[signer key id], but that id is not known to be one of the current step's PubKeys (no membership fact)", &fr
+					}
+					return "key", K, vs, "VerifySignature(layout.Keys[id]) ok, slices.Contains(step.PubKeys, id), key == id", &fr
+				}
 				if fr.org(id) != "p0.Steps[*].PubKeys[*]" {
 					return "", K, vs, "verification key id is " + fr.org(id) + ", not an element of the current step's PubKeys", &fr
 				}
